@@ -39,11 +39,16 @@ type Session struct {
 	Ops      []Op     `json:"ops"`
 	Universe []string `json:"universe"`
 	// compile
-	Text     string  `json:"text"`
-	Text64   string  `json:"text64"` // base64 of the text when it is not valid UTF-8
-	Class    string  `json:"class"`
-	Base     []RDecl `json:"base"`
-	Declared []RDecl `json:"declared"`
+	Text   string `json:"text"`
+	Text64 string `json:"text64"` // base64 of the text when it is not valid UTF-8
+	// SelfFirst: the installed base is reached through the text itself: first the
+	// text is (tried to be) installed by a full build, then the base rules are merged
+	// in incrementally and every other rule is removed, so that the state equals the
+	// base again when the text is submitted ("any state of the builder/pool").
+	SelfFirst bool    `json:"selffirst"`
+	Class     string  `json:"class"`
+	Base      []RDecl `json:"base"`
+	Declared  []RDecl `json:"declared"`
 }
 
 type Event map[string]interface{}
@@ -237,7 +242,28 @@ func runCompile(s *Session) []Event {
 	// builder entry points
 	for _, ep := range []string{"builder_full", "builder_incr"} {
 		rb := newBuilder()
-		if err := rb.BuildRuleFromString(baseText); err != nil {
+		if s.SelfFirst {
+			_, _ = try(func() error { return rb.BuildRuleFromString(s.Text) })
+			if err := rb.BuildRuleWithIncremental(baseText); err != nil {
+				fmt.Fprintf(os.Stderr, "driver: base text does not merge: %v\n", err)
+				os.Exit(2)
+			}
+			var extra []string
+			for k := range rb.Kc.RuleEntities {
+				isBase := false
+				for _, b := range s.Base {
+					if b.Name == k {
+						isBase = true
+					}
+				}
+				if !isBase {
+					extra = append(extra, k)
+				}
+			}
+			if len(extra) > 0 {
+				_ = rb.RemoveRules(extra)
+			}
+		} else if err := rb.BuildRuleFromString(baseText); err != nil {
 			fmt.Fprintf(os.Stderr, "driver: base text does not compile: %v\n", err)
 			os.Exit(2)
 		}
@@ -282,10 +308,43 @@ func runCompile(s *Session) []Event {
 		submit("pool_new", ok, pv, p == nil, post, true, Event{"count": cnt})
 	}
 	for _, ep := range []string{"pool_full", "pool_incr"} {
-		p, err := engine.NewGenginePool(1, 2, engine.SortModel, baseText, api())
-		if err != nil {
-			fmt.Fprintf(os.Stderr, "driver: base pool: %v\n", err)
-			os.Exit(2)
+		var p *engine.GenginePool
+		var err error
+		if s.SelfFirst {
+			_, _ = try(func() error {
+				var e error
+				p, e = engine.NewGenginePool(1, 2, engine.SortModel, s.Text, api())
+				return e
+			})
+			if p != nil {
+				if e := p.UpdatePooledRulesIncremental(baseText); e != nil {
+					fmt.Fprintf(os.Stderr, "driver: base text does not merge into the pool: %v\n", e)
+					os.Exit(2)
+				}
+				var extra []string
+				ex := p.IsExist(uni)
+				for i, n := range uni {
+					isBase := false
+					for _, b := range s.Base {
+						if b.Name == n {
+							isBase = true
+						}
+					}
+					if i < len(ex) && ex[i] && !isBase {
+						extra = append(extra, n)
+					}
+				}
+				if len(extra) > 0 {
+					_ = p.RemoveRules(extra)
+				}
+			}
+		}
+		if p == nil {
+			p, err = engine.NewGenginePool(1, 2, engine.SortModel, baseText, api())
+			if err != nil {
+				fmt.Fprintf(os.Stderr, "driver: base pool: %v\n", err)
+				os.Exit(2)
+			}
 		}
 		var pv interface{}
 		if ep == "pool_full" {
